@@ -62,6 +62,13 @@ def to_case(o):
         later = "[" + "; ".join("(%d, %d, %d)" % (f["type"], f["size"], f["count"]) for f in (o["later"] or [])) + "]"
         script = "[" + "; ".join(reply(r) for r in (o["script"] or [])) + "]"
         return "CClient %d %s (%s) %s %s" % (o["req_msize"], script, result(o), sent, later)
+    if k in ("session", "wiresession"):
+        reqs = "[" + "; ".join("(%d, %s)" % (q["msize"], bstr(q["s"])) for q in o["reqs"]) + "]"
+        reps = "[" + "; ".join("(%d, %s)" % (q["msize"], bstr(q["version"])) for q in (o["replies"] or [])) + "]"
+        if k == "session":
+            sts = "[" + "; ".join("(%d, %d)" % (a, b) for a, b in o["states"]) + "]"
+            return "CSession %s %s %s" % (reqs, reps, sts)
+        return "CWireSession %s %s" % (reqs, reps)
     raise ValueError(k)
 
 
@@ -98,14 +105,30 @@ def run(ctx):
             if nm <= 5:
                 ctx.note("model/implementation disagree on: %s" % str(o)[:400])
             ctx.broken.append({"kind": "correspondence", "what": "Fs/Version.v disagrees with the implementation (%s)" % o["kind"], "case": o})
-    distinct = len({str(sorted((k, str(v)) for k, v in o.items() if k != "id")) for o in obs})
+    # non-trivial = a version string that is accepted or is a near miss of the grammar (has the 9P2000 prefix),
+    # a client script with at least one Rversion, or a session of 2+ requests; counted as distinct records of those
+    def nontrivial(o):
+        k = o["kind"]
+        if k in ("parse", "handle", "wire"):
+            return bytes(o["s"]).startswith(b"9P2000")
+        if k == "client":
+            return any(r["kind"] == "rversion" for r in (o["script"] or []))
+        return k in ("session", "wiresession", "vstr")
+    distinct = len({str(sorted((k, str(v)) for k, v in o.items() if k != "id")) for o in obs if nontrivial(o)})
     ctx.coverage.update({
         "evaluations": len(obs),
         "distinct_nontrivial": distinct,
         "rule": "generated version strings (fixed boundary corpus + token concatenations + mutations + random numbers/leading zeros) x msize table; "
-                "NewClient against scripted servers (EAGAIN chains, errors, lowered/raised/zero msize, non-.L versions); distinct = distinct observation records",
+                "NewClient against scripted servers (EAGAIN chains, errors, lowered/raised/zero msize, non-.L versions); distinct_nontrivial counts distinct records whose version string starts with 9P2000 (accepted or near miss), client scripts containing an Rversion, and sessions",
         "correspondence": {"cases": len(obs), "mismatches": nm, "by_kind": kinds},
-        "samples": [obs[1], next(o for o in obs if o["kind"] == "handle"), next(o for o in obs if o["kind"] == "client")],
+        # one sample per kind of observation, preferring a non-trivial one (accepted version / successful client / 3+ step session)
+        "samples": [x for x in (
+            next((o for o in obs if o["kind"] == "parse" and o["ok"] and o["ver"] > 0), None),
+            next((o for o in obs if o["kind"] == "handle" and o.get("rmsize")), None),
+            next((o for o in obs if o["kind"] == "wire" and not o.get("rmsize")), None),
+            next((o for o in obs if o["kind"] == "client" and o["result"] == "ok" and len(o["sent"] or []) > 1), None),
+            next((o for o in obs if o["kind"] == "client" and o["result"] == "exhausted"), None),
+            next((o for o in obs if o["kind"] == "session" and len(o["reqs"]) >= 3), None)) if x is not None],
     })
 
 
